@@ -107,11 +107,23 @@ func (r *Parser) Buffer(buf []byte, maxSize int) {
 
 // New returns a Parser that extracts fields from a reader.
 func New(r io.Reader) *Parser {
-	sc := bufio.NewScanner(r)
-	sc.Split(splitFunc)
-
 	fsc := NewFieldParser("")
 	fsc.RemoveBOM(true)
+
+	sc := bufio.NewScanner(r)
+	first := true
+	sc.Split(func(data []byte, atEOF bool) (int, []byte, error) {
+		advance, token, err := splitFunc(data, atEOF)
+		if first && token != nil {
+			first = false
+			if advance != len(token) {
+				// Leading blank lines were skipped, so the token does not start at the
+				// beginning of the stream and a BOM in it is part of a field name.
+				fsc.RemoveBOM(false)
+			}
+		}
+		return advance, token, err
+	})
 
 	return &Parser{inputScanner: sc, fieldScanner: fsc}
 }
